@@ -37,4 +37,8 @@ CHECKS = {
    technique="TLA+ spec PacketWriter: declarative ExpectWrite/ExpectReadFrom + read-loop state machine, TLC refinement over all fragmentations/error placements/failing positions at scaled packet size; TLC trace validation of the four real adapters",
    text="Every fragmentation of short streams into reader results (incl. data returned with EOF or with a failure) and every failing write position is explored on the loop model against the declarative expectation; the real adapters are driven with scripted readers/writers and each recorded delivery list, result class and byte count is validated by TLC.",
    note=TB),
+ "C10": dict(level="model_checking", design_ref="DESIGN.md 4/C10",
+   technique="TLA+ spec Scte35State (stack, pending-breakaway marker, duplicate ring; one function per call): TLC exhaustive over histories with C10's clauses as invariants/action properties; stateful TLC trace validation of bounded-exhaustive and random histories on the real scte35.State",
+   text="The tracker is specified implementation-shaped; TLC explores every ProcessDescriptor/Close history to depth 4-5 over a descriptor alphabet and checks each clause of C10 on every state and transition. Every process-only history of length <=2 (3) over a 50-descriptor alphabet plus random long histories run on the real State; after each call the error class, the identities returned as closed and the identities listed by Open() must equal the spec's.",
+   note=TB),
 }
